@@ -235,6 +235,34 @@ def exact_range_pair(inp):
     return False
 
 
+def drop_oracle(inp, levels):
+    """the 'drop' clause of the statement, directly on a labelled output: a trajectory is continued
+    only inside an uncontested group (one source, one feature, within search_range of each other and
+    of nothing else).  Returns None or a message."""
+    w, B = linkcommon.weights(inp["sr"])
+    last = {}
+    for k, (t, pts, labels) in enumerate(levels):
+        if labels is None:
+            return None
+        srcs = [(l, p0) for l, (kk, p0) in last.items() if k - kk <= inp["memory"] + 1]
+        near = [[i for i, (_, p0) in enumerate(srcs)
+                 if sum(wi * (a - b) ** 2 for wi, a, b in zip(w, p0, p)) <= B] for p in pts]
+        nfeat = {}
+        for ns in near:
+            for i in ns:
+                nfeat[i] = nfeat.get(i, 0) + 1
+        for j, (p, l) in enumerate(zip(pts, labels)):
+            for i in near[j]:
+                if srcs[i][0] == l and (len(near[j]) > 1 or nfeat[i] > 1):
+                    return ("level %d: trajectory %d is continued although %d trajectories are within "
+                            "search_range of the feature and %d features within search_range of the "
+                            "trajectory's last position (link_strategy='drop' leaves contested groups "
+                            "unlinked)" % (k, l, len(near[j]), nfeat[i]))
+        for p, l in zip(pts, labels):
+            last[l] = (k, p)
+    return None
+
+
 def run_prediv(inp):
     """pre-divided coordinates, search_range 1 — positions mapped back to the lattice"""
     import trackpy as tp
@@ -387,6 +415,8 @@ def run_case(ctx, inp):
         if mv.get("verdict") not in ("ok", "capped", "expect-oversize"):
             reason = str(mv.get("reason")).replace("_", " ")
             omsg = linkcommon.oracle_levels(ref_inp, lv, check_optimal=not drop)
+            if omsg is None and drop:
+                omsg = drop_oracle(ref_inp, lv)
             if omsg is not None:
                 res.violation("property-violation", "%s: %s" % (name, omsg), impl=lv, model=mv,
                               signature=dict(what=reason, variant=name))
